@@ -587,7 +587,7 @@ theorem any_longArray (c : Prop) (f : Nat) (xs : List (BitVec 64)) (hl : xs.leng
   exact R_enc (by simp) (R_bind (R_readLongs c xs) (R_pure c _))
 
 theorem any_list (c : Prop) (f : Nat) (e : BitVec 8) (xs : List NBT) (hl : xs.length < 2147483648)
-    (he : e.toNat ≤ 12) (ih : R c (anyListLoop f e xs.length) (encList xs) (goAnyList xs)) :
+    (he : e.toNat ≤ 12) (hne : xs = [] ∨ e ≠ NBT.tagEnd) (ih : R c (anyListLoop f e xs.length) (encList xs) (goAnyList xs)) :
     R c (unmarshalAny (f + 1) (NBT.list e xs).tag) (encPayload (.list e xs)) (goAny (.list e xs)) := by
   unfold unmarshalAny
   have h : (9 : BitVec 8).toNat = 9 := rfl
@@ -599,7 +599,12 @@ theorem any_list (c : Prop) (f : Nat) (e : BitVec 8) (xs : List NBT) (hl : xs.le
   rw [← be32_ofNat _ hl]
   apply R_bind (R_readInt32 c _)
   rw [msb32_false _ hl, toNat32 _ hl]
-  simp only [Bool.false_eq_true, if_false]
+  have hend : ¬ (e = 0#8 ∧ xs.length > 0) := by
+    rintro ⟨h0, hn⟩
+    rcases hne with rfl | hne
+    · simp at hn
+    · exact hne h0
+  simp only [Bool.false_eq_true, if_false, hend]
   exact R_enc (by simp) (R_bind ih (R_pure c _))
 
 theorem any_compound (c : Prop) (f : Nat) (kvs : List (Bytes × NBT))
@@ -670,10 +675,10 @@ mutual
     | .longArray xs, f + 1, hwf, _ => any_longArray _ f xs (by simp only [NBT.WF, two31] at hwf; exact hwf)
     | .list e xs, f + 1, hwf, hs => by
       simp only [NBT.WF, two31] at hwf
-      obtain ⟨hlen, _, hle, hwfl⟩ := hwf
+      obtain ⟨hlen, hne, hle, hwfl⟩ := hwf
       simp only [S15] at hs
       have ih := anyList_R xs e f hwfl hs
-      exact any_list _ f e xs hlen hle (R_mono (by simp only [cost]; omega) ih)
+      exact any_list _ f e xs hlen hle hne (R_mono (by simp only [cost]; omega) ih)
     | .compound kvs, f + 1, hwf, hs => by
       simp only [NBT.WF] at hwf
       simp only [S15] at hs
